@@ -1086,7 +1086,7 @@ class TransferManager(BaseManager):
                     PeerUploadFailed.Request(transfer.remote_path)
                 )
 
-            except PeerConnectionError:
+            except (ConnectionWriteError, PeerConnectionError):
                 logger.info("failed to send PeerUploadFailed message (possibly peer went offline)")
 
         except asyncio.CancelledError:
@@ -1106,7 +1106,7 @@ class TransferManager(BaseManager):
                     PeerUploadFailed.Request(transfer.remote_path)
                 )
 
-            except PeerConnectionError:
+            except (ConnectionWriteError, PeerConnectionError):
                 logger.debug("failed to send PeerUploadFailed message (possibly peer went offline)")
 
         else:
